@@ -187,6 +187,14 @@ def run_cicada(argv, case_dir, cwd=None, env=None, stdin=None, timeout=10.0, exe
     """Run the real binary once. argv excludes argv[0]. Returns a Run."""
     exe = exe or CICADA
     e = base_env(case_dir, env)
+    # hang budget: after 12 real timeouts in this check run, further runs are not started (they are reported as
+    # timed out at once), so that a change that makes everything hang cannot stretch a check to hours
+    tfile = os.path.join(scratch_root(), 'timeouts')
+    try:
+        if os.path.getsize(tfile) >= 12:
+            return Run(None, b'', b'(not run: hang budget of this check run exhausted)', [], True, 0.0)
+    except OSError:
+        pass
     if e['HOME'].startswith(case_dir):
         os.makedirs(e['HOME'], exist_ok=True)
     t0 = time.time()
@@ -198,6 +206,8 @@ def run_cicada(argv, case_dir, cwd=None, env=None, stdin=None, timeout=10.0, exe
         out, err = p.communicate(stdin, timeout=timeout)
     except subprocess.TimeoutExpired:
         timed_out = True
+        with open(tfile, 'ab') as tf:
+            tf.write(b'x')
         try:
             os.killpg(p.pid, signal.SIGKILL)
         except OSError:
